@@ -86,6 +86,10 @@ def canon_call(t):
     elif head(f) == "attr":
         sig, defaults = METHOD_SIGS.get(f[2]), METHOD_DEFAULTS.get(f[2], {})
     if sig is None:
+        # option dictionaries passed with ** are compared by content:  f(**dict(d))  ==  f(**d)
+        if any(k == "**" for k, _ in t[3]):
+            kws = tuple((k, (dict_rewrite(("dict", ((("dictstar",), v),))) if k == "**" and head(strip(v)) != "dmerge" else v)) for k, v in t[3])
+            return ("call", t[1], t[2], kws)
         return t
     if any(head(a) == "star" for a in args) or len(args) > len(sig):
         return t
